@@ -7,8 +7,8 @@ import check
 check.build_replay()
 bad = 0
 for t in sorted(check.SCENARIOS):
-    for pid in ["C01", "C02", "C03", "C04", "C05", "C06", "C07", "C08", "C09", "C10", "C11", "C12", "C14", "C15", "C17"]:
-        d = check.replay_search(t, pid, secs=60)
+    for pid in ["C01", "C02", "C03", "C04", "C05", "C06", "C07", "C08", "C09", "C10", "C11", "C12", "C13", "C14", "C15", "C17"]:
+        d = check.replay_search(t, pid)
         if d:
             bad += 1
             print("HIT", t, pid, d["scenario"], d["tape"], d["violations"][:2])
